@@ -26,6 +26,11 @@ claim('C09', 'devx',
       'Every single and (thorough) every pair of structural edits {delete/duplicate/empty element, delete/empty/duplicate attribute} of 7 full-featured base messages (AuthnRequest POST/Redirect/signed, LogoutRequest POST/Redirect, AttributeQuery plain/signed) and of an SP metadata document, every prefix and every single-byte substitution of each document, the endpoint x method x body grid and the SigAlg x registered-key-type grid are executed against a fresh real provider (ServeHTTP / NewServiceProvider); the oracle is that recover() never fires.',
       'Coverage-guided fuzzing and byte corruption beyond edit distance 1 (sampling) are replaced by the exhaustive families above; DSA certificates are not among the registered key types.', '§5 C09')
 
+claim('C05', 'devx',
+      'exhaustive enumeration: full product of signing configurations x forgery operators x deviation-bounded message shapes, executed on the real SSO handler',
+      'Full product of the 50 signing configurations (SP AuthnRequestsSigned {absent,false,0,true,1} x SP certificate {one,none} x IdP WantAuthRequestsSigned {"",false,0,true,1}) x every valid (base message, forgery operator) pair (8 bases; 18 query-signature and 20 enveloped-signature operators incl. bit flips, edits after signing, stripping, two XSW shapes, Reference/KeyInfo/algorithm substitution, foreign keys, duplicate parameters, binding transplants) x k<=1 (quick) / k<=2 (thorough) further message dimensions. Messages are signed by an honest signer that shares no code with the repository; acceptance is read from the strict storage call log; the oracle compares what was handed to storage with the signed projection.',
+      'RSA keys; forgery operators are applied singly; known findings (two root causes) are listed in known_findings.json.', '§5 C05')
+
 NOT_YET = {i: 'check not built yet in this revision (planned: see DESIGN.md §5 %s); not claimed until its machinery exists' % i for i in ids}
 
 def main():
